@@ -165,6 +165,82 @@ def check_loop_counters(ctx, prog):
     return n
 
 
+def check_did_not_iterate(ctx, prog):
+    """L3: a for-else branch runs when the loop did not iterate.  The function that answers that question for the
+    interpreter (found by role: what the `PushDidNotIterate` handler calls) must decide by something that is recorded
+    *under the iterator's answer* - in the loop state's `next()`, at least one write to the state it reads is
+    control-dependent on whether the wrapped iterator yielded an item.  A counter that is bumped before the iterator is
+    asked tells "next() was called once" (true while the first item is being processed: a `break` there ran the else
+    branch), not "nothing was yielded"."""
+    from .. import flow, arms as _arms, cfg as _cfg
+    INSTR = "minijinja::compiler::instructions::Instruction"
+    ev = prog.fns.get("minijinja::vm::Executor::eval_impl")
+    if ev is None:
+        return 0
+    sw = _arms.enum_switches(prog, ev, INSTR)
+    if not sw:
+        return 0
+    regs = _arms.arm_regions(prog, ev, sw[0][0], INSTR)
+    reg = regs.get("PushDidNotIterate")
+    if not reg:
+        return 0
+    deciders = [c.name for c in ev.calls() if c.bb in reg and c.dest is not None and "p" not in c.dest
+                and ev.locals[c.dest["l"]].get("prim") == "bool" and c.name.startswith("minijinja::vm::loop_object::")]
+    n = 0
+    for dn in sorted(set(deciders)):
+        d = prog.fns.get(dn)
+        if d is None:
+            continue
+        n += 1
+        # state the decider reads: field names of `self` (through the shared loop object)
+        reads = set()
+        for bb, i, st in d.all_stmts():
+            rv = st.get("rv") or {}
+            for pl in [rv.get("place")] + [flow.op_place(o) if hasattr(flow, "op_place") else None for o in []]:
+                pass
+        from ..facts import op_place
+        from .. import query
+        for bb, i, st in d.all_stmts():
+            rv = st.get("rv") or {}
+            pls = [rv.get("place")] if isinstance(rv.get("place"), dict) else []
+            pls += [op_place(o) for o in query.rv_operands(rv) if "c" not in o]
+            for pl in pls:
+                for e in (pl or {}).get("p", []):
+                    if isinstance(e, dict) and "n" in e:
+                        reads.add(str(e["n"]))
+        for c in d.calls():
+            for a in c.args:
+                pl = op_place(a) if "c" not in a else None
+                for o in (flow.origins(d, a) if pl is not None else []):
+                    reads |= {x for x in o.proj if not x.startswith("as ") and not x.isdigit()}
+        # the stepping function of the same type: writes of those fields under the wrapped iterator's answer
+        owner = dn.rsplit("::", 1)[0]
+        nxt = prog.fns.get(owner + "::next")
+        backed = False
+        why = "no `next` on %s" % owner.split("::")[-1]
+        if nxt is not None:
+            why = "no write of %s in next() depends on what the wrapped iterator returned" % sorted(reads)
+            inner = [c for c in nxt.calls() if c.name.endswith("::next") and c.dest is not None]
+            for bb, i, st in nxt.all_stmts():
+                if st["k"] != "assign":
+                    continue
+                fld = [str(e["n"]) for e in st["place"].get("p", []) if isinstance(e, dict) and "n" in e]
+                if not (set(fld) & reads):
+                    continue
+                for (sb, taken) in flow.guards(nxt, bb):
+                    cd = flow.cond_of(nxt, sb)
+                    if cd.kind == "discr" and cd.place is not None and any(
+                            o.kind == "call" and any(o.call.bb == ic.bb for ic in inner) for o in flow.origins(nxt, {"cp": cd.place})):
+                        backed = True
+                    if cd.kind == "call" and cd.call.name.endswith(("::is_some", "::is_none")) and any(
+                            o.kind == "call" and any(o.call.bb == ic.bb for ic in inner) for o in flow.origins(nxt, cd.call.args[0])):
+                        backed = True
+        ctx.ob("C03.L3.did-not-iterate-is-decided-by-what-the-iterator-yielded", dn.split("loop_object::")[-1], backed,
+               "%s decides whether the else branch of a loop runs; %s" % (dn.split("::")[-1], why if not backed else "it reads state recorded under the iterator's answer"),
+               d.where(0))
+    return n
+
+
 def run(ctx):
     ctx.explain("C03 (partial): the scoping skeleton of the core constructs, decided by the rules of C05 (frames, captures, "
                 "jumps, operand balance, restored state) and the closure-related rules of C18 (what macros enclose) run as "
@@ -180,6 +256,8 @@ def run(ctx):
     _c04.run(ctx.borrowed("C04", "C03.K:"))
     n_l = check_exact_size_hints(ctx, ctx.prog)
     ctx.floor("C03.L1 size hints with a stored upper bound", n_l, 1)
+    n_l3 = check_did_not_iterate(ctx, ctx.prog)
+    ctx.floor("C03.L3 deciders of the for-else branch", n_l3, 1)
     n_l2 = check_loop_counters(ctx, ctx.prog)
     ctx.floor("C03.L2 relations between loop attributes", n_l2, 3)
     n_f = sum(1 for o in ctx.obligations if o[0].startswith("C03.F:"))
